@@ -75,7 +75,7 @@ __CPROVER_requires(acmod->grow_feat == 0 || acmod->grow_feat == 1)
 /* streaming mode: the unread region has not wrapped around the end of the ring (decoder_process_* drains the ring after
  * every call, so n_feat_frame == 0 there).  Without this the two-part write uses the UNCLAMPED frame count and can
  * overwrite unread frames -- reachable only through the acmod-level API, recorded as an observation in DESIGN.md */
-__CPROVER_requires(acmod->grow_feat || acmod->feat_outidx + acmod->n_feat_frame <= acmod->n_feat_alloc)
+__CPROVER_requires(acmod->grow_feat || acmod->n_feat_frame == 0 || acmod->feat_outidx + acmod->n_feat_frame < acmod->n_feat_alloc)
 __CPROVER_assigns(acmod->feat_buf, acmod->framepos, acmod->n_feat_alloc, acmod->n_feat_frame, acmod->state, *inout_cep, *inout_n_frames, verif_room)
 /* the ring invariant is preserved: nothing unread is overwritten (n_feat_frame <= n_feat_alloc), the code's own
  * assertions hold, in growing mode the buffer stays linear */
